@@ -29,7 +29,7 @@ PROPERTY = "C34"
 LEVEL = "exploration"
 ENGINE = "direct"
 TECHNIQUE = "round trip through the real view setters/getters; before/after interpretation by independent wire-format readers"
-BUDGET = {"quick": (5_000, 16), "thorough": (150_000, 200)}
+BUDGET = {"quick": (10_000, 16), "thorough": (150_000, 200)}
 WORKERS = {"quick": 2, "thorough": 16}
 VIEWS = ["query", "cookies", "setcookie", "form", "multipart", "path"]
 REQUIRED = [f"{v}.assign_readback" for v in VIEWS] + [f"{v}.writeback" for v in VIEWS]
@@ -222,11 +222,13 @@ def boundary_predicates(raw_b: bytes, true_b: bytes):
     return mech
 
 
-def model_mp_roundtrip_content(raw_b: bytes, content: bytes):
-    dec = model_mp_decode(raw_b, content)
-    if dec is None:
-        return None
-    return model_mp_encode(urllib.parse.quote(raw_b).encode(), dec)
+def boundary_variants(raw_b: bytes, true_b: bytes):
+    """(boundary used for reading, boundary used for writing, boundary mechanisms) for the behaviour with the
+    boundary defects (quotes kept, urllib-quoted on write) and, if that differs, for the behaviour without them."""
+    out = [(raw_b, urllib.parse.quote(raw_b).encode(), boundary_predicates(raw_b, true_b))]
+    if out[0][2]:
+        out.append((true_b, true_b, []))
+    return out
 
 
 def transcode_latin1(body: bytes) -> bytes:
@@ -825,10 +827,11 @@ def case_multipart(ctx, r, mode):
             report(ctx, "multipart.assign-content-type", {"headers": req.headers.fields}, None)
         elif got != tup(pairs):
             mechs = None
-            raw_b = raw_boundary_param(req)
-            pred = model_mp_decode(raw_b, model_mp_encode(urllib.parse.quote(raw_b).encode(), pairs))
-            if pred is not None and got == tup(pred):
-                mechs = (boundary_predicates(raw_b, b_now) or mp_value_predicates([v for _, v in pairs], b_now)) or None
+            for dec_b, enc_b, bmech in boundary_variants(raw_boundary_param(req), b_now):
+                pred = model_mp_decode(dec_b, model_mp_encode(enc_b, pairs))
+                if pred is not None and got == tup(pred):
+                    mechs = (bmech or mp_value_predicates([v for _, v in pairs], b_now)) or None
+                    break
             report(ctx, "multipart.assign_readback", {"boundary": b_now, "pairs": pairs, "readback": got, "content": req.raw_content}, mechs)
         feats = ("assign", mp_features([v for _, v in pairs]), size_class(len(pairs)), preset, any(boundary in v for _, v in pairs) if boundary else False)
         nontrivial = bool(pairs) and (bool(feats[1]) or any(c in n for n, _ in pairs for c in (b" ", b"'", b"\\", b"\xff", b"\xc3\xa9", b";")))
@@ -859,13 +862,16 @@ def case_multipart(ctx, r, mode):
         mechs = None
         raw_b = raw_boundary_param(req)
         if changed == ["body"] and before["body"][0] == "multipart" and b0 and raw_b:
-            pred_content = model_mp_roundtrip_content(raw_b, c0 or b"")
-            if pred_content is not None:
+            for dec_b, enc_b, bmech in boundary_variants(raw_b, b0):
+                dec = model_mp_decode(dec_b, c0 or b"")
+                if dec is None:
+                    continue
+                pred_content = model_mp_encode(enc_b, dec)
                 pp_ = W.parse_multipart(b0, pred_content)
                 pred_body = ("multipart", [norm_part(p) for p in pp_] if pp_ is not None else ("malformed", pred_content))
                 if after["body"] == pred_body:
                     bparts = before["body"][1]
-                    ms = boundary_predicates(raw_b, b0)
+                    ms = list(bmech)
                     if not ms and isinstance(bparts, list):
                         if bparts:
                             ms.append("multipart-writeback-appends-crlf-to-every-value")
@@ -873,6 +879,7 @@ def case_multipart(ctx, r, mode):
                             ms.append("multipart-writeback-drops-filename-and-part-content-type")
                         ms += mp_value_predicates([v for _, _, _, v in bparts], b0)
                     mechs = ms or None
+                    break
         report(ctx, "multipart.writeback:" + ",".join(changed), {"content_before": c0, "content_after": req.raw_content, "boundary": b0, "changed": {c: [before[c], after[c]] for c in changed}}, mechs)
     return ("multipart",) + feats, nontrivial, sample
 
